@@ -258,8 +258,18 @@ def _make_class(modname, c, layers):
             ns['layer'] = layers[c['layer']]
     if c.get('level') is not None:
         ns['level'] = c['level']
+    weird = {}
     for t in c['tests']:
         ns[t['name']] = _make_test(t)
+        if t.get('idx'):
+            weird[t['name']] = t['idx']
+    if weird:
+        # unusual spellings of test ids (parametrised ids, custom __str__)
+        def __str__(self):
+            base = unittest.TestCase.__str__(self)
+            w = weird.get(self._testMethodName)
+            return base if w is None else base.replace(' (', w + ' (', 1)
+        ns['__str__'] = __str__
     return type(c['name'], (unittest.TestCase,), ns)
 
 
